@@ -512,6 +512,8 @@ class Interp:
             return BoundMethod(recv, attr)
         if isinstance(recv, Closure) and attr == "__name__":
             return getattr(recv.node, "name", "<lambda>")
+        if isinstance(recv, TypeRef) and ("%s.%s" % (recv.name, attr)) in self.pack.models:
+            return ModuleRef("%s.%s" % (recv.name, attr))  # e.g. object.__repr__ with a pack model
         if default is not KeyError:
             return default
         self.unsupported(node, "attribute %s of %r" % (attr, recv))
